@@ -13,6 +13,7 @@ GO_WRONG = ('TypeError', 'AttributeError', 'NameError', 'UnboundLocalError')
 OPERAND_VALUES = {'Int': '3', 'Float': '2.5', 'Str': '"s"', 'Bool': 'True', 'Base': 'Base(1)', 'List': '[1, 2]', 'Tuple': '(1, 2)', 'None': 'None'}
 BINOPS = ['+', '-', '*', '/', '//', 'mod', '^', '<', '<=', '>', '>=', '=', 'and', 'or']
 UNOPS = ['-', '+', 'not ', 'sqrt ']
+AUGOPS = ['+=', '-=', '*=', '/=', '^=', '<<=', '>>=']
 
 
 def operand_cells():
@@ -38,6 +39,19 @@ def operand_cells():
                 body = (f'def r := {op}{OPERAND_VALUES[a]}\nprint("done")\n' if form == 'literals'
                         else f'def va: {decl[a]} := {OPERAND_VALUES[a]}\ndef r := {op}va\nprint("done")\n')
                 out.append((f'unop:{op.strip()}{a}:{form}', f'unop:{op.strip()}:{a}', pre + body))
+    # augmented assignment: receiver type x operand type, on a variable and on a field through self
+    for op in AUGOPS:
+        for a in tys:
+            for b in tys:
+                body = f'def va: {decl[a]} := {OPERAND_VALUES[a]}\ndef vb: {decl[b]} := {OPERAND_VALUES[b]}\nva {op} vb\nprint("done")\n'
+                # the shifts put no constraint on either operand (one listed finding per operator); the other operators are judged per type pair
+                g = f'augop:{op}' if op in ('<<=', '>>=') else f'augop:{op}:{a}:{b}'
+                out.append((f'augop:{a}{op}{b}:variable@top', g, pre + body))
+                out.append((f'augop:{a}{op}{b}:variable@fun', g,
+                            pre + 'def wrapf() -> Int =>\n' + ''.join('    ' + l + '\n' for l in body.strip().split('\n')) + '    0\nprint(wrapf())\n'))
+                out.append((f'augop:{a}{op}{b}:field@method', g,
+                            pre + f'class AugBox(def fa: {decl[a]})\n    def bump(self, vb: {decl[b]}) -> Int =>\n        self.fa {op} vb\n        0\n\n'
+                            f'def ab := AugBox({OPERAND_VALUES[a]})\nprint(ab.bump({OPERAND_VALUES[b]}))\n'))
     # method / field on the wrong class, renamed uses
     extra = {
         'method-of-other-class': 'class Other(def oz: Str)\n    def name(self) -> Str => self.oz\ndef b := Base(1)\nprint(b.name())\n',
@@ -106,8 +120,11 @@ def shard(i, n, nrandom, stride):
             if must and kk % (stride * 4) != 0:
                 continue
             # collapse the context out of the group: one defect, one signature
-            g = gid.rsplit(':', 1)[0]
-            judge(w, cid, f'{name}:{g}', src, part, f'{name}-edit')
+            g = f"{name}:{gid.rsplit(':', 1)[0]}"
+            # a name defined again in a nested block / loop body: one scoping defect, whatever the use site and the sweep it comes from
+            if '+inner-' in cid or '+loop-' in cid or 'reuse-inner-' in gid:
+                g = 'scoping:redefinition-in-nested-block'
+            judge(w, cid, g, src, part, f'{name}-edit')
             part.count('typing-edit-cells')
     for kk, (cell, prog) in enumerate(sweeps.cells()):
         k += 1
